@@ -42,7 +42,8 @@ NONHEX = [chr(c) for c in range(128) if chr(c) not in "0123456789abcdefABCDEF"]
 MAX_ADD_RHO = 249              # MaxRho(0): the largest register value add_element can produce
 NSK = 4                        # sketches per full-size behaviour (Trace_Hll.tla: NSK)
 CACHE = os.path.join(C.WORK, "c20cache")
-MAX_PAR = 4
+MAX_PAR = 4                    # harness processes at a time
+TLC_PAR = 2                    # trace-judge JVMs (one worker each) at a time; the model checker runs beside them
 
 SIZES = {
     # edge-cover cfg, behaviours replayed (None = all), traced edge behaviours, law behaviours, walks (n, ops),
@@ -620,7 +621,7 @@ def tlc_judge(groups, wd, tag):
     if not groups:
         return [], 0
     total = sum(len(g[1]) for g in groups)
-    nsh = min(MAX_PAR, max(1, total // 1500))
+    nsh = min(TLC_PAR, max(1, total // 1500))
     shards = [[] for _ in range(nsh)]
     for i, g in enumerate(groups):
         shards[i % nsh].append(g)
@@ -651,7 +652,7 @@ def tlc_judge(groups, wd, tag):
         return list(res.values()), n
 
     bad, lines = [], 0
-    with cf.ThreadPoolExecutor(max_workers=MAX_PAR) as ex:
+    with cf.ThreadPoolExecutor(max_workers=TLC_PAR) as ex:
         for b, n in ex.map(one, enumerate(shards)):
             bad += b
             lines += n
@@ -722,7 +723,7 @@ def run(prop, tier, seed, replay=None):
     def mc_all():
         res = {}
         for cfg in Z["mc"]:
-            r = C.model_check("MC_Hll.tla", cfg, None, workers=4, timeout=900, heap="4g")
+            r = C.model_check("MC_Hll.tla", cfg, None, workers=4 if "big" in cfg else 2, timeout=1200, heap="4g")
             if r["never_taken"]:
                 raise C.ToolError("vacuous model %s: actions never taken: %s" % (cfg, r["never_taken"]))
             C.log("[mc] %s: %d states, %d transitions in %.1fs" % (cfg, r["states"], r["transitions"], r["wall"]))
